@@ -13,6 +13,7 @@ from . import scenario as S
 
 LEVEL = 'exploration'
 LONG = 90 * 86400
+FOREIGN = 4242
 MODES = [0o000, 0o400, 0o600, 0o640, 0o644, 0o660, 0o666, 0o777, 0o444, 0o604]
 UMASKS = [0o000, 0o022, 0o027, 0o077]
 USERS = [None, 'daemon', 'nobody', 'www-data', '1', '65534', '12345', '0']
@@ -54,17 +55,33 @@ def run_case(case):
     for k in ('cert_file_mode', 'pk_file_mode', 'cert_file_user', 'cert_file_group', 'pk_file_user', 'pk_file_group'):
         if case.get(k) is not None:
             g[k] = case[k]
-    plan = {'default': {'lifetimes_s': [100, LONG], 'chain_lens': [2, 1]}}
+    plan = {'default': {'lifetimes_s': [100, LONG] if case.get('scene') != 'foreign-owner' else [100] * 8 + [LONG], 'chain_lens': [2, 1]}}
 
     def mk_cfg(contacts):
         def cfg(d, ca):
+            if case.get('scene') == 'setgid-dir' and not os.path.isdir(d + '/certs'):
+                # files created in a set-group-ID directory inherit its group: the configured group must be applied all the same
+                os.makedirs(d + '/certs')
+                os.chown(d + '/certs', 0, FOREIGN)
+                os.chmod(d + '/certs', 0o2755)
             if case.get('split'):
                 # the file-mode and owner options live in an included file; the main file has its own [global] table
                 c = S.std_config(d, ca, [{'name': 'c0', 'identifiers': S.ids('m%d.example.org' % case['i']), 'kp_reuse': case['kp_reuse']}],
                                  accounts=[{'name': 'acc1', 'contacts': contacts}])
-                with open(d + '/modes.toml', 'w') as f:
-                    f.write(C.toml_dumps({'global': g}) if g else '')
-                out = {'include': ['modes.toml']}
+                if case['split'] == 1:
+                    with open(d + '/modes.toml', 'w') as f:
+                        f.write(C.toml_dumps({'global': g}) if g else '')
+                    out = {'include': ['modes.toml']}
+                else:
+                    # two included files with a [global] table each; the options of interest are in the first one only
+                    os.makedirs(d + '/conf.d', exist_ok=True)
+                    with open(d + '/conf.d/10-modes.toml', 'w') as f:
+                        f.write(C.toml_dumps({'global': g}) if g else '')
+                    with open(d + '/conf.d/20-renew.toml', 'w') as f:
+                        f.write(C.toml_dumps({'global': {'random_early_renew': '1s'}}))
+                    with open(d + '/conf.d/30-empty.toml', 'w') as f:
+                        f.write('')
+                    out = {'include': ['conf.d/*.toml'] if case['split'] == 3 else ['conf.d/10-modes.toml', 'conf.d/20-renew.toml', 'conf.d/30-empty.toml']}
                 out.update(c)
                 return out
             return S.std_config(d, ca, [{'name': 'c0', 'identifiers': S.ids('m%d.example.org' % case['i']), 'kp_reuse': case['kp_reuse']}],
@@ -73,9 +90,15 @@ def run_case(case):
 
     def rm_cert(d, ca):
         try:
-            os.remove(d + '/certs/c0_ecdsa-p256.crt.pem')
+            # (in the foreign-owner scene the short-lived certificate stays in place: it is due at once and gets rewritten)
+            if case.get('scene') != 'foreign-owner':
+                os.remove(d + '/certs/c0_ecdsa-p256.crt.pem')
         except OSError:
             pass
+        if case.get('scene') == 'foreign-owner':
+            # files left behind with another owner (another configuration, a restored backup): a rewrite gives them the configured one
+            for f in os.listdir(d + '/certs'):
+                os.chown(d + '/certs/' + f, FOREIGN, FOREIGN)
     n_ok = lambda n: (lambda hooks, log: len(S.successes(hooks)) >= n or len([h for h in hooks if C.hook_event(h) == 'post-operation']) >= n + 2)
     phases = [
         {'cfg': mk_cfg(['a@example.org']), 'stop': n_ok(2), 'timeout': 60, 'env': None},
@@ -96,6 +119,7 @@ def run_case(case):
             'account': {'mode': 0o600 & ~um, 'uid': None, 'gid': None},
         }
         created = {}
+        is_pre = {}
         for h in run.hooks:
             if C.hook_event(h) != 'file':
                 continue
@@ -120,7 +144,11 @@ def run_case(case):
             elif created.get(path) is True:
                 res['edits'] += 1
                 w = want[cls]
+                # records of an existing file come in pairs: before the rewrite (file-pre-edit), then after it
+                is_pre[path] = not is_pre.get(path, False)
                 for who, key in (('uid', 'uid'), ('gid', 'gid')):
+                    if is_pre[path] and case.get('scene') == 'foreign-owner':
+                        continue      # the foreign owner was put there by the scene; the rewrite has not happened yet
                     exp = w[key] if w[key] is not None else 0
                     if f[who] != exp:
                         res['problems'].append(('rewrite-owner', '%s file has %s %d after a rewrite, expected %d' % (cls, who, f[who], exp)))
@@ -214,6 +242,13 @@ def run(tier):
             # one name used as user and as group (its uid and the gid of the group of that name differ), in several orders
             n1 = DUAL[i % len(DUAL)]
             c.update({'pk_file_user': n1, 'pk_file_group': n1} if i % 12 == 4 else {'cert_file_user': n1, 'pk_file_group': n1, 'cert_file_group': r.choice(GROUPS), 'pk_file_user': r.choice(USERS)})
+        c['split'] = (1 + (i // 5) % 3) if c['split'] else 0
+        if i % 8 in (3, 7):
+            # scenes in which a file does not naturally get the daemon's own ids; every owner option is set, the daemon's own ids included
+            c['scene'] = 'setgid-dir' if i % 8 == 3 else 'foreign-owner'
+            own_u, own_g = ['0', 'root'], ['0', 'root']
+            c.update({'pk_file_user': r.choice(own_u + USERS[1:4]), 'pk_file_group': r.choice(own_g + own_g + GROUPS[1:3]),
+                      'cert_file_user': r.choice(own_u + USERS[1:4]), 'cert_file_group': r.choice(own_g + own_g + GROUPS[1:3]), 'kp_reuse': False})
         cases.append(c)
     results = C.parallel(cases, run_case)
     for res in results:
@@ -224,8 +259,12 @@ def run(tier):
             chk.count('runs_incomplete')
         chk.count('file_creations_checked', res['creates'])
         chk.count('file_rewrites_checked', res['edits'])
+        if res['creates'] and c.get('scene'):
+            chk.count('scene_' + c['scene'])
+        if res['creates'] and c['split']:
+            chk.count('configuration_split_%d' % c['split'])
         if res['creates']:
-            chk.distinct.add(('daemon', c['split'], c['umask'], c['pk_file_mode'], c['cert_file_mode'], c['pk_file_user'], c['pk_file_group'], c['cert_file_user'], c['cert_file_group']))
+            chk.distinct.add(('daemon', c['split'], c.get('scene'), c['umask'], c['pk_file_mode'], c['cert_file_mode'], c['pk_file_user'], c['pk_file_group'], c['cert_file_user'], c['cert_file_group']))
         if not res['problems'] and res['creates']:
             chk.sample({k: (oct(v) if isinstance(v, int) and k.endswith('mode') else v) for k, v in c.items() if k != 'i'})
         seen = set()
@@ -236,7 +275,7 @@ def run(tier):
             chk.violation('C13|%s|%s' % (cls, what.split(' ')[0]), what + ' [%s]' % {k: v for k, v in c.items() if k != 'i'}, res, res.get('replay_dir'))
     probe_sweep(chk, tier, r)
     chk.rule = ('daemon runs: pk_file_mode / cert_file_mode from a boundary set (or unset) x umask {000,022,027,077} x user/group by name, by number or unset, '
-                'for key and certificate files; creation (first issuance, registration), rewrite (renewal, contact update); probe: full mode x umask '
+                'for key and certificate files, single-file and split configurations (one or several included [global] tables), set-group-ID directories and files left with a foreign owner; creation (first issuance, registration), rewrite (renewal, contact update); probe: full mode x umask '
                 'grid through the storage layer; distinct = configurations with at least one file creation observed')
     chk.assumptions = ['the checks run as root, so chown to arbitrary ids is possible', 'mode is required at creation only; on rewrite only "not more readable than asked" and the owner']
     code = chk.finish()
